@@ -49,7 +49,7 @@ class C11(Check):
                    'the must-be-zero clause is one-directional (the code may zero more, e.g. spline rejections and region growth)',
                    'output pixels within 1e-6 pixel (float32 grids: 1e-3 pixel) of a good input pixel are free (boundary band)',
                    'reproduction is asserted only >= 5 input pixels away from any bad pixel or edge, for noise-free inputs of period >= 60 px']
-    REQUIRED_COUNTERS = ('reproduce_integer_flux', 'reproduce_one_sided_windows', 'scaling_noisy_cases', 'scaling_without_ivar', 'tiny_flux_unit_cases', 'calls_1d', 'calls_2d', 'calls_no_ivar', 'must_be_zero_pixels', 'nonzero_ivar_pixels_interp_checked',
+    REQUIRED_COUNTERS = ('canary_sequences', 'reproduce_without_ivar', 'reproduce_integer_flux', 'reproduce_one_sided_windows', 'scaling_noisy_cases', 'scaling_without_ivar', 'tiny_flux_unit_cases', 'calls_1d', 'calls_2d', 'calls_no_ivar', 'must_be_zero_pixels', 'nonzero_ivar_pixels_interp_checked',
                          'allbad_cases', 'disjoint_grid_cases', 'reproduction_cases', 'scaling_cases', 'deredshift_cases',
                          'method_traditional', 'method_noconst', 'method_mean', 'method_damp', 'method_nothing', 'float32_cases',
                          'isolated_good_pixel_cases', 'multi_group_cases')
@@ -167,6 +167,11 @@ class C11(Check):
                     ivs, pat = self._mask(rng, g, n, rng.choice(['none', 'edges', 'runs', 'isolated', 'random', 'single_pixels']))
                     if (ivs > 0).sum() >= 101:
                         break
+                if rng.random() < 0.15:
+                    # the smallest exposure the property allows: exactly 101 pixels of positive weight (one contiguous stretch)
+                    a = rng.randint(0, n - 101)
+                    ivs = np.where((np.arange(n) >= a) & (np.arange(n) < a + 101), np.maximum(ivs, 1.0), 0.0)
+                    pat = 'exactly101'
                 iv[s] = ivs
                 pats.append(pat)
             nl, gk = self._grid(rng, ll[0], dl)
@@ -192,6 +197,11 @@ class C11(Check):
             # in other dtypes (float32; integer counts for constant spectra)
             case['window'] = rng.choice(['same', 'same', 'left', 'right', 'interior'])
             case['wpar'] = [rng.randint(0, 10), rng.uniform(0.35, 0.65)]
+            if cls == 'reproduce' and rng.random() < 0.25:
+                # no inverse variance given at all; for constant spectra also levels whose sample variance is exactly zero
+                case['omit_ivar'] = True
+                if const:
+                    case['level'] = rng.choice([0.0, 1.0, 4.0, 250.0, 7.3, rng.uniform(5, 20)])
             if cls == 'reproduce':
                 case['fdtype'] = rng.choice(['f8', 'f8', 'f4', 'i2', 'i4', 'i8']) if const else rng.choice(['f8', 'f8', 'f4'])
                 if case['fdtype'].startswith('i'):
@@ -254,6 +264,30 @@ class C11(Check):
         out.expect(bool(np.all(np.isfinite(i))), 'finite', '%s: non-finite inverse variance' % what)
         out.expect(bool(np.all(i >= 0)), 'ivar-nonneg', '%s: negative inverse variance %r' % (what, float(i.min())))
         return True
+
+    def canary(self):
+        """Fixed, ordinary calls one after another (see vlib.harness.canary_setup): a grid beyond the data with a masked run,
+        a call without inverse variance, a two-exposure stack, an all-bad spectrum."""
+        C = self.SP2.combine1fiber
+        g = np.random.default_rng(4321)
+        ll = 3.6 + 1e-4 * np.arange(260)
+        fl = 5 + np.sin(np.arange(260) / 20.0) + g.normal(0, 0.05, 260)
+        iv = np.full(260, 4.0)
+        iv[100:108] = 0.0
+        nl = 3.6 + 1e-4 * (np.arange(-20, 300) + 0.4)
+        res = []
+        for args, kw in (((ll, fl, nl), {'objivar': iv.copy(), 'aesthetics': 'mean'}),
+                         ((ll, fl * 250.0, ll.copy()), {}),
+                         ((np.array([ll, ll + 3e-5]), np.array([fl, fl]), nl), {'objivar': np.array([iv, iv]), 'aesthetics': 'damp'}),
+                         ((ll, fl, nl), {'objivar': np.zeros(260), 'aesthetics': 'traditional'})):
+            try:
+                with warnings.catch_warnings():
+                    warnings.simplefilter('ignore')
+                    f, i = C(*[a.copy() for a in args], **kw)
+                res.append(('ok', np.asarray(f, dtype='f8').round(9).tobytes(), np.asarray(i, dtype='f8').round(9).tobytes()))
+            except Exception as e:
+                res.append(('raised', type(e).__name__, str(e)[:80]))
+        return res
 
     def run(self, case, out):
         getattr(self, 'run_' + case['kind'])(case, out)
@@ -341,7 +375,13 @@ class C11(Check):
         dl = case['dl']
         fdt = case.get('fdtype', 'f8')
         fin = sig(ll).astype(fdt)
-        f, i = self._c1f(ll.copy(), fin, nl.copy(), iv.copy(), case['method'])
+        if case.get('omit_ivar'):
+            iv = np.ones_like(iv)             # "no inverse variance" means every input pixel is good
+            f, i = self._c1f(ll.copy(), fin, nl.copy(), None, case['method'])
+            out.count('reproduce_without_ivar')
+            out.count('calls_no_ivar')
+        else:
+            f, i = self._c1f(ll.copy(), fin, nl.copy(), iv.copy(), case['method'])
         out.count('method_' + case['method'])
         out.count('calls_1d')
         out.count('reproduce_integer_flux', fdt.startswith('i'))
@@ -351,9 +391,14 @@ class C11(Check):
         far = self._far_from_bad(ll, iv, nl, dl)
         amp = max(abs(case['level']), case['amp']) * case.get('unit', 1.0)
         if far.any():
-            out.expect(bool(np.all(i[far] > 0)), 'reproduce', 'good, smooth region lost its inverse variance (%d pixels)' % int((i[far] == 0).sum()))
+            if case['const'] and case['level'] == 0.0:
+                # an identically zero spectrum gives zero spline coefficients, which the code (like the IDL original) cannot tell
+                # from a failed fit and reports with zero inverse variance: allowed by the property (the flux, 0, is still right)
+                out.count('reproduce_zero_spectrum')
+            else:
+                out.expect(bool(np.all(i[far] > 0)), 'reproduce', 'good, smooth region lost its inverse variance (%d pixels)' % int((i[far] == 0).sum()))
             dev = float(np.abs(f[far] - sig(nl[far])).max())
-            lim = (1e-10 if case['const'] else 1e-4) * amp
+            lim = max((1e-10 if case['const'] else 1e-4) * amp, 1e-300)
             if fdt == 'f4':
                 lim = max(lim, 1e-5 * amp)
             out.expect(dev <= lim, 'reproduce', 'resampled flux deviates from the smooth input by %.3g (limit %.3g; shift %.2f px, const=%s)'
